@@ -16,7 +16,7 @@ TITLE = '3-D group results sit at the position of their signal'
 REGISTER = True
 TECHNIQUE = ('Hypothesis property-based testing: one-vs-many differential of compute_features_3d / BycycleGroup.fit against '
              'compute_features on the individual signal (axis=(0,1)) or on the flattened slice followed by a reference epoch '
-             'partition (axis 0 / 1), over shapes, axis modes, shared / 1-D / 2-D option lists, n_jobs, memory layouts, injected worker delays, repeated fits and a second independent object; references computed in freshly forked processes')
+             'partition (axis 0 / 1), over shapes, axis modes, shared / 1-D / 2-D option lists, n_jobs, memory layouts, injected worker delays, repeated fits and a second independent object; references computed in freshly forked processes; the same differential with spawn / forkserver workers and on one array of more than 64 MiB')
 LEVEL_TEXT = ('Generated-input search (320 pool runs quick, 6k thorough) over shapes (n0, n1) in {1,2,3}^2 (size-1 and non-square '
               'included), pairwise different signals, axis in {0, 1, (0,1)}, options None / dict / per-slice 1-D list / 2-D list, '
               'n_jobs in {1, 2, 5, -1}, function and object API (the object is fit twice with different data in a fraction of cases). '
